@@ -8,8 +8,8 @@ import (
 )
 
 type SExpr struct {
-	Atom string
-	List []*SExpr
+	Atom   string
+	List   []*SExpr
 	IsList bool
 }
 
